@@ -32,5 +32,13 @@ PROP = {
             "shards": {"quick": 8, "thorough": 16},
             "watchdog": {"quick": 600, "thorough": 3000},
         },
+        {
+            "name": "concurrent", "pkg": "chainntnfs", "pkgname": "chainntnfs_test", "test": "TestVerifC14Concurrent",
+            "files": ["chainntnfs/c14_test.go"],
+            "race": {"quick": False, "thorough": True},
+            "shards": {"quick": 8, "thorough": 16},
+            "watchdog": {"quick": 600, "thorough": 3000},
+            "gomaxprocs": 4,
+        },
     ],
 }
